@@ -5,7 +5,7 @@ C=$(echo "$c" | tr c C)
 rel() { case "$1" in C01|C02|C03|C04) echo "C01 C02 C03 C04";; C08) echo "C08 C10";; C10) echo "C10 C08";; *) echo "$1";; esac; }
 for m in "$@"; do
   d=/verif/seeded/$C-$m; mkdir -p "$d"
-  cp /tmp/seed2/$c/$m/patch.diff /tmp/seed2/$c/$m/README.md /tmp/seed2/$c/$m/demo.txt /tmp/seed2/$c/$m/*_test.go "$d/" 2>/dev/null
+  src=${SEEDSRC:-/tmp/seed2}; cp $src/$c/$m/patch.diff $src/$c/$m/README.md $src/$c/$m/demo.txt $src/$c/$m/*_test.go "$d/" 2>/dev/null
   (cd /repo && git apply --check "$d/patch.diff" 2>&1 | head -1)
   /verif/tools/seed_eval.sh "$d" quick $(rel $C) 2>&1 | grep "^seeded" | cut -c1-220
 done
